@@ -244,3 +244,28 @@ def search_C12(lean, workdir, vh):
         if 'panick' in of.get('what', '') and 'amcl' not in json.dumps(of.get('case', {}).get('sig', '')):
             return of
     return None
+
+PROPS['C08']['families'] = [dict(name='c08'), dict(name='c08s')]
+PROPS['C08']['fam_dir'] = {'c08': 'exact', 'c08s': 'safety'}
+PROPS['C08']['rule'] += ". System level (c08s): an unrevoked credential with a holder state for the list of timestamp 20, interval placed globally / on a revealed, unrevealed, group or predicate referent, six windows (inside, inside with an open bound, before, after, before with open upper bound) x {as built, verifier override of the requested lower bound, timestamp stripped, timestamp of no supplied list}, both formats; non-revocable credential with intervals everywhere; real prover + verifier, model in the safety direction; oracle: inside => accepted, outside / no timestamp / no list => rejected (F5 class known)"
+PROPS['C08']['trusted_base'] = TRUSTED_COMMON + IDEALCL
+
+PROPS['C04'] = dict(
+    lean_targets=['AnonModel.Props.C04'],
+    required_theorems=['C04_legacy', 'C04_check_revealedValuesOk', 'C04_check_restrictions', 'C04_check_subCtxs', 'C04_check_cl'],
+    families=[dict(name='c04')], default_dir='verdict', fam_dir={'c04': 'verdict'},
+    spec_is_model=[],
+    fam_theorem={'c04': 'C04_legacy : meetsDemands -> createPresentation = some p -> verifyLegacy = ok true (prover model exact vs real prover; meetsDemands evaluated on every generated honest flow)'},
+    rule="random worlds over the cast (6 definitions incl. case/space-variant attribute names, legacy ids, revocable ones; 12 credentials; registry histories): 1-3 credentials per presentation, each attribute in a random role (revealed / unrevealed single with respelled names, group revealed or not, one of eight satisfied predicates, unused), satisfied restrictions from 16 templates (incl. legacy list form, $in, $neq, $not, value/marker leaves), global and local intervals with holder states for a list at which the credential is valid, self-attested referents (legacy), unused credentials in random positions; legacy and W3C; every third selection is broken in one of seven ways the prover must refuse. Compared: (a) real prover output vs prover model output, exactly (requested_proof maps, identifiers, every sub-proof's revealed values / predicates / non-revocation part presence, subject of derived W3C credentials); (b) real verifier verdict vs verifier model verdict; (c) the hypotheses of the theorem (meetsDemands / meetsDemandsW3C) evaluated by the model on every honest flow must be true; oracle: honest flow verifies",
+    trusted_base=TRUSTED_COMMON + IDEALCL,
+    assumptions=["F19 (W3C value restriction spelled as the request spells the attribute) is a known finding; the honest generator uses the spelling each format understands and a dedicated class reproduces the finding"],
+)
+PROPS['C07'] = dict(
+    lean_targets=['AnonModel.Props.C07'],
+    required_theorems=['C07_legacy', 'C07_legacy_unrevealed_hidden', 'C07_legacy_predicate_hidden', 'C07_legacy_unrequested_hidden', 'C07_w3c', 'C07_w3c_unrevealed_group_hidden'],
+    families=[dict(name='c07'), dict(name='c04')], default_dir='exact', fam_dir={'c04': 'verdict', 'c07': 'exact'},
+    fam_theorem={'c07': 'C07_legacy / C07_w3c over createPresentation / createPresentationW3C', 'c04': 'prover model = real prover (exact)'},
+    rule="scan (model independent): a credential with long sentinel values; 80 (quick) / 1500 (thorough) random selections over its four attributes (revealed single, unrevealed single, member of a revealed or unrevealed group, predicate, not requested; respelled names), both formats; the serialised presentation — JSON text plus every base64url-msgpack proof value decoded — is searched for the raw and the encoded string of every attribute not marked revealed, for the link secret (decimal), for every number of the credential signature, and (revocable flow) for the holder's and the issuer's witness; revealed values must be present. Plus the prover-model correspondence of the c04 family (exact outputs)",
+    trusted_base=TRUSTED_COMMON + IDEALCL + ["'the proof leaks nothing' at the level of the numbers of the CL proof is an assumption about the zero-knowledge property of the CL scheme; the scan only finds verbatim occurrences"],
+)
+PROPS['C18']['spec_is_model'] = ['c18']
